@@ -1,6 +1,8 @@
 (* ParseModel.v — fsic.parser.parse_model (fsic/parser.py:676-777).  Definitions only; no fuel.
-   The syntax check `compile(code, '<string>', 'exec')` under `warnings.catch_warnings(record=True)`
-   is an oracle `chk` (a Section variable wherever theorems are stated):
+   The syntax check under `warnings.catch_warnings(record=True)` is an oracle `chk` on the generated code string
+   (a Section variable wherever theorems are stated).  Since fix 1847a2f the code is compiled as build_model embeds it:
+   `compile('def _evaluate(self, t):\n' + textwrap.indent(code, '    ') + '\n    pass', '<string>', 'exec')`; chk c stands
+   for the outcome of that call on the code c (harness: parser_common.compile_outcome wraps in the same way):
      ChkOk                 compiled, no warning recorded
      ChkSyntaxError        compile raised SyntaxError                        -> problem statement
      ChkCaughtExn          compile raised ValueError / RecursionError / MemoryError / OverflowError (null bytes, source nested too
